@@ -393,6 +393,8 @@ class C18Executor(Executor):
                 return [(st, VInt(idx))]
         if name == "endswith" and len(args) == 1 and isinstance(args[0], VStr) and args[0].const() and len(args[0].const()) == 1:
             return [(st, VBool(z3.simplify(struct_endswith(self, st, str_parts(s.t), args[0].const()))))]
+        if name == "encode":
+            return self.str_method_encode(st, s)
         return super().str_method(st, s, name, args, kwargs, node)
 
     def contains(self, st, container, item, node):
@@ -430,6 +432,55 @@ class C18Executor(Executor):
                     if r is not None:
                         return [(st, VStr(r))]
         return super().str_slice(st, base, sl, node)
+
+    # -- transport, abstract library objects ----------------------------------
+    def __init__(self, *a, unshaped_keys=(), **kw):
+        super().__init__(*a, **kw)
+        self.unshaped_keys = tuple(unshaped_keys)
+
+    def call(self, st, f, args, kwargs, node):
+        if isinstance(f, VExt) and f.sort == "Transport":
+            return transport_call(self, st, f, args, kwargs, node)
+        return super().call(st, f, args, kwargs, node)
+
+    def handler_classes(self, h, st):
+        # urllib.error.X / json.JSONDecodeError and their short aliases are one class each
+        return [n.split(".")[-1] if n.split(".")[0] in ("urllib", "json") else n for n in super().handler_classes(h, st)]
+
+    def mk_exc(self, cls, **attrs):
+        if cls == "SharePointRequestError" and "status_code" not in attrs:
+            attrs["status_code"] = VInt(z3.Int(fresh_name("status_code")))   # None behaves like a non-matching int under ==
+        return super().mk_exc(cls, **attrs)
+
+    def truth(self, st, v):
+        if isinstance(v, VExt) and v.sort == "Bytes":
+            return VBool(BLEN(v.t) > 0)
+        if isinstance(v, VExt) and v.sort == "Json":
+            return VBool(J_TRUTHY(v.t))
+        return super().truth(st, v)
+
+    def str_method_encode(self, st, s):
+        return [(st, VExt("Bytes", ENC(s.t)))]
+
+    def b_getattr(self, st, args, kwargs, node):
+        if len(args) == 3 and isinstance(args[0], VExt) and args[0].sort == "Response" and isinstance(args[1], VStr) \
+                and args[1].const() == "status":
+            r = args[0].t
+            a = st.fork().assume(z3.Not(R_HAS_STATUS(r)))
+            b = st.fork().assume(z3.And(R_HAS_STATUS(r), R_STATUS_NONE(r)))
+            c = st.assume(z3.And(R_HAS_STATUS(r), z3.Not(R_STATUS_NONE(r))))
+            return [(a, args[2]), (b, NONE), (c, VInt(R_STATUS(r)))]
+        return super().b_getattr(st, args, kwargs, node)
+
+    def b_isinstance(self, st, args, kwargs, node):
+        v, t = args
+        if isinstance(v, VExt) and v.sort == "Json":
+            names = [x.name for x in (t.items if isinstance(t, VTuple) else [t])]
+            if names == ["dict"]:
+                return [(st, VBool(J_ISDICT(v.t)))]
+            if names == ["str"]:
+                return [(st, VBool(J_ISSTR(v.t)))]
+        return super().b_isinstance(st, args, kwargs, node)
 
     # -- comprehensions over symbolic sequences ------------------------------
     def e_GeneratorExp(self, n, st):
@@ -583,13 +634,472 @@ def part_a(reg):
     return out
 
 
+# ================================================================== Part B ==
+# ---- abstract library objects ------------------------------------------------
+JsonS, BytesS, RespS, ReqS = ext_sort("Json"), ext_sort("Bytes"), ext_sort("Response"), ext_sort("Request")
+J_ISDICT = z3.Function("json_is_object", JsonS, B)
+J_HAS = z3.Function("json_has_key", JsonS, S, B)
+J_GET = z3.Function("json_member", JsonS, S, JsonS)
+J_ISSTR = z3.Function("json_is_string", JsonS, B)
+J_STR = z3.Function("json_string", JsonS, S)
+J_LEN = z3.Function("json_array_len", JsonS, I)
+J_AT = z3.Function("json_array_item", JsonS, I, JsonS)
+J_TRUTHY = z3.Function("json_truthy", JsonS, B)
+JSON_OK = z3.Function("json_parses", S, B)
+LOADS = z3.Function("json_loads", S, JsonS)
+DUMPS = z3.Function("json_dumps", JsonS, S)
+BLEN = z3.Function("bytes_len", BytesS, I)
+DEC_OK = z3.Function("utf8_decodes", BytesS, B)
+DEC = z3.Function("utf8_decode", BytesS, S)
+DEC_REPL = z3.Function("utf8_decode_replace", BytesS, S)
+ENC = z3.Function("utf8_encode", S, BytesS)
+FULL_URL = z3.Function("request_full_url", ReqS, S)
+R_HAS_STATUS = z3.Function("response_has_status_attr", RespS, B)
+R_STATUS = z3.Function("response_status", RespS, I)
+R_STATUS_NONE = z3.Function("response_status_is_none", RespS, B)
+R_CODE = z3.Function("response_getcode", RespS, I)
+R_CODE_NONE = z3.Function("response_getcode_is_none", RespS, B)
+R_BODY = z3.Function("response_body", RespS, BytesS)
+JSON_OF = z3.Function("server_json", S, JsonS)     # T-DET: what a healthy server answers to GET url (parsed)
+
+# keys whose value, when present, is ASSUMED to be a string (GRAPH-SHAPE); "value" is ASSUMED to be an array
+SHAPE_STR_KEYS = frozenset({"name", "id", "@odata.nextLink", "access_token"})
+SHAPE_LIST_KEYS = frozenset({"value"})
+
+
+def json_seq(arr):
+    return VSeq(J_LEN(arr), lambda i: VExt("Json", J_AT(arr, i)), "Json")
+
+
+def m_json_get(ex, st, obj, args, kwargs, node):
+    """dict.get on a parsed JSON value: AttributeError unless it is an object; the default when the key is absent;
+    the member otherwise (strings / arrays per GRAPH-SHAPE, else an opaque JSON value)."""
+    key = args[0].const() if args and isinstance(args[0], VStr) else None
+    if key is None:
+        return ex.havoc_call(st, "Json.get", args, node)
+    default = args[1] if len(args) > 1 else NONE
+    j = obj.t
+    st = ex.fork_raise(st, z3.Not(J_ISDICT(j)), "AttributeError")
+    if st is None:
+        return []
+    has = J_HAS(j, sv(key))
+    mem = J_GET(j, sv(key))
+    out = []
+    if ex.feasible(st.pc, z3.Not(has)):
+        out.append((st.fork().assume(z3.Not(has)), default))
+    if ex.feasible(st.pc, has):
+        s1 = st.fork().assume(has)
+        strict = key in getattr(ex, "unshaped_keys", ())
+        if key in SHAPE_LIST_KEYS:
+            s1.assume(J_LEN(mem) >= 0)
+            out.append((s1, json_seq(mem)))
+        elif key in SHAPE_STR_KEYS and not strict:
+            out.append((s1, VStr(J_STR(mem))))
+        elif key in SHAPE_STR_KEYS:
+            s2 = s1.fork().assume(z3.Not(J_ISSTR(mem)))
+            out.append((s1.assume(J_ISSTR(mem)), VStr(J_STR(mem))))
+            out.append((s2, VExt("Json", mem)))
+        else:
+            out.append((s1, VExt("Json", mem)))
+    return out
+
+
+def m_json_loads(ex, st, args, kwargs, node):
+    """json.loads(text): ASSUMED -- JSONDecodeError iff the text is not JSON, else the parsed value."""
+    x = args[0]
+    if not isinstance(x, VStr):
+        return ex.havoc_call(st, "json.loads", args, node)
+    st2 = ex.fork_raise(st, z3.Not(JSON_OK(x.t)), "JSONDecodeError")
+    if st2 is None:
+        return []
+    st2.assume(J_ISDICT(LOADS(x.t)))      # GRAPH-SHAPE: a body that is JSON at all is a JSON object
+    return [(st2, VExt("Json", LOADS(x.t)))]
+
+
+def m_json_dumps(ex, st, args, kwargs, node):
+    if args and isinstance(args[0], VExt) and args[0].sort == "Json":
+        return [(st, VStr(DUMPS(args[0].t)))]
+    return ex.havoc_call(st, "json.dumps", args, node)
+
+
+def m_bytes_decode(ex, st, obj, args, kwargs, node):
+    """bytes.decode('utf-8'[, errors='replace']): strict decoding raises UnicodeDecodeError on invalid UTF-8."""
+    errs = kwargs.get("errors", args[1] if len(args) > 1 else None)
+    if isinstance(errs, VStr) and errs.const() == "replace":
+        return [(st, VStr(DEC_REPL(obj.t)))]
+    st2 = ex.fork_raise(st, z3.Not(DEC_OK(obj.t)), "UnicodeDecodeError")
+    if st2 is None:
+        return []
+    return [(st2, VStr(DEC(obj.t)))]
+
+
+def m_new_request(ex, st, args, kwargs, node):
+    """urllib.request.Request(url, ...): ASSUMED to succeed for the URLs built here; full_url is the URL given."""
+    url = args[0] if args else kwargs.get("url")
+    r = VExt("Request")
+    if isinstance(url, VStr):
+        st.assume(FULL_URL(r.t) == url.t)
+    return [(st, r)]
+
+
+NETLOC = z3.Function("url_netloc", S, S)
+UPATH = z3.Function("url_path", S, S)
+
+
+def m_urlparse(ex, st, args, kwargs, node):
+    """urllib.parse.urlparse(s): ASSUMED total on strings (uninterpreted netloc / path)."""
+    if not (args and isinstance(args[0], VStr)):
+        return ex.havoc_call(st, "urlparse", args, node)
+    r = VExt("ParseResult")
+    st.ghost[("parsed", r.t.get_id())] = args[0].t
+    return [(st, r)]
+
+
+def m_urlencode(ex, st, args, kwargs, node):
+    return [(st, VStr(z3.String(fresh_name("urlencoded"))))]
+
+
+def _flag_misbehaviour(ex, st, site):
+    """A path on which the transport / response object raises something the stated assumptions exclude."""
+    bad = st.fork()
+    bad.ghost["misbehaved"] = True
+    ex.exc_any(bad, site)
+
+
+def open_set(st):
+    return st.ghost.get("open", frozenset())
+
+
+def transport_call(ex, st, f, args, kwargs, node):
+    """self._request(request, timeout=...): the transport.
+    T-ONLY (assumed for the family claim): it raises only HTTPError / URLError or returns a response object.
+    Every other exception is modelled too (ghost `misbehaved`) so that closing is proved for those paths as well."""
+    out = []
+    code = z3.Int(fresh_name("http_code"))
+    e1 = st.fork()
+    e1.ghost["transport"] = ("http", code)
+    ex.raise_in(e1, VExc(z3.IntVal(ex.uni.index["HTTPError"]),
+                         {"code": VInt(code), "reason": VStr(z3.String(fresh_name("reason"))),
+                          "read": VFunc("ext", "C18.http_error_read")}))
+    e2 = st.fork()
+    e2.ghost["transport"] = ("url",)
+    ex.raise_in(e2, VExc(z3.IntVal(ex.uni.index["URLError"]), {"reason": VStr(z3.String(fresh_name("reason")))}))
+    _flag_misbehaviour(ex, st, f"{ex.loc(node)} transport raises something else")
+    r = VExt("Response")
+    st.ghost["transport"] = ("resp", r)
+    st.ghost["open"] = open_set(st) | {r.t.get_id()}
+    st.ghost["obtained"] = st.ghost.get("obtained", 0) + 1
+    return [(st, r)]
+
+
+def m_http_error_read(ex, st, args, kwargs, node):
+    _flag_misbehaviour(ex, st, f"{ex.loc(node)} HTTPError.read raises")
+    return [(st, VExt("Bytes"))]
+
+
+def m_resp_getcode(ex, st, obj, args, kwargs, node):
+    _flag_misbehaviour(ex, st, f"{ex.loc(node)} response.getcode raises")
+    a = st.fork().assume(R_CODE_NONE(obj.t))
+    return [(a, NONE), (st.assume(z3.Not(R_CODE_NONE(obj.t))), VInt(R_CODE(obj.t)))]
+
+
+def m_resp_read(ex, st, obj, args, kwargs, node):
+    _flag_misbehaviour(ex, st, f"{ex.loc(node)} response.read raises")
+    return [(st, VExt("Bytes", R_BODY(obj.t)))]
+
+
+def m_resp_close(ex, st, obj, args, kwargs, node):
+    """close(): the response counts as closed once close() has been called; it may still raise."""
+    st.ghost["open"] = open_set(st) - {obj.t.get_id()}
+    ex.exc_any(st.fork(), f"{ex.loc(node)} response.close raises")
+    return [(st, NONE)]
+
+
+def install_transport_models(reg):
+    reg.method_models[("Json", "get")] = m_json_get
+    reg.ext_models["json.loads"] = m_json_loads
+    reg.ext_models["json.dumps"] = m_json_dumps
+    reg.method_models[("Bytes", "decode")] = m_bytes_decode
+    reg.ext_models[("new", "urllib.request.Request")] = m_new_request
+    reg.ext_models["urllib.parse.urlencode"] = m_urlencode
+    reg.ext_models["urllib.parse.urlparse"] = m_urlparse
+    reg.attr_models[("ParseResult", "netloc")] = lambda ex, st, o: VStr(NETLOC(st.ghost[("parsed", o.t.get_id())]))
+    reg.attr_models[("ParseResult", "path")] = lambda ex, st, o: VStr(UPATH(st.ghost[("parsed", o.t.get_id())]))
+    reg.ext_models["C18.http_error_read"] = m_http_error_read
+    reg.method_models[("Response", "getcode")] = m_resp_getcode
+    reg.method_models[("Response", "read")] = m_resp_read
+    reg.method_models[("Response", "close")] = m_resp_close
+    reg.attr_models[("Request", "full_url")] = lambda ex, st, o: VStr(FULL_URL(o.t))
+
+
+CREDS = p_obj("EntraIDAppCredentials", {"tenant_id": p_str(), "client_id": p_str(), "client_secret": p_str(), "scope": p_str()})
+
+
+def p_transport():
+    return Maker(lambda ex, st, name: VExt("Transport"), desc="transport callable (request_func / urlopen)")
+
+
+def p_client(token=None, site=None):
+    return p_obj("SharePointRestClient", {
+        "_site_url": p_str(), "_credentials": CREDS, "_request": p_transport(), "_timeout": p_unk(),
+        "_access_token": token or p_opt(p_str()), "_site_id": site or p_opt(p_str())})
+
+
+def p_req():
+    return Maker(lambda ex, st, name: VExt("Request", z3.Const(name, ReqS)), desc="urllib Request")
+
+
+def self_field(c, f, st=None):
+    st = st or c.st
+    o = st.obj(c.args["self"].ref)
+    return o.data[f] if o.data is not None else VUnk("havocked")
+
+
+def same_value(a, b):
+    if a is b:
+        return z3.BoolVal(True)
+    try:
+        return ops.eq_term(a, b)
+    except ops.Unsupported:
+        return z3.BoolVal(False)
+
+
+def closed(c):
+    return z3.BoolVal(not open_set(c.st))
+
+
+def caches_unchanged(c):
+    return z3.And(same_value(self_field(c, "_access_token"), self_field(c, "_access_token", c.entry)),
+                  same_value(self_field(c, "_site_id"), self_field(c, "_site_id", c.entry)))
+
+
+def at_call_site(c):
+    """Contract clauses are evaluated both when the body is verified (c.exc / c.result set) and when a caller
+    uses the contract (neither set): there they describe what the caller may assume."""
+    return c.exc is None and c.result is None
+
+
+def send_raise_when(c):
+    """Statement: HTTP / network failures and non-2xx answers give the request error carrying status and URL."""
+    if at_call_site(c):
+        return z3.BoolVal(True)
+    g = c.st.ghost
+    kind = g.get("transport")
+    if kind is None or g.get("misbehaved"):
+        return z3.BoolVal(False)
+    a = c.exc.attrs
+    if "status_code" not in a or "url" not in a or not isinstance(a["url"], VStr):
+        return z3.BoolVal(False)
+    url_ok = a["url"].t == FULL_URL(c.args["request"].t)
+    sc = a["status_code"]
+    if kind[0] == "http":
+        st_ok = same_value(sc, VInt(kind[1]))
+    elif kind[0] == "url":
+        st_ok = z3.BoolVal(isinstance(sc, VNoneT))
+    else:
+        none, eff = eff_status(kind[1].t)
+        if isinstance(sc, VNoneT):
+            st_ok = none
+        elif isinstance(sc, VInt):
+            st_ok = z3.And(z3.Not(none), ops.int_term(sc) == eff, z3.Or(eff < 200, eff >= 300))
+        else:
+            st_ok = z3.BoolVal(False)
+    return z3.And(url_ok, st_ok, closed(c))
+
+
+def eff_status(r):
+    """The status a response object reports: its `status` attribute, else getcode() (urllib convention).
+    -> (is None, value)"""
+    has = z3.And(R_HAS_STATUS(r), z3.Not(R_STATUS_NONE(r)))
+    return z3.And(z3.Not(has), R_CODE_NONE(r)), z3.If(has, R_STATUS(r), R_CODE(r))
+
+
+def send_result(ex, st, ctx):
+    s = z3.Int(fresh_name("status"))
+    st.assume(z3.And(s >= 200, s < 300))
+    return VTuple([VInt(s), VExt("Bytes")])
+
+
+def token_frame(ex, st, amap):
+    """Call-site frame of everything that may fetch a token: only `_access_token` may change."""
+    ref = amap["self"].ref
+    w = st.wobj(ref)
+    w.data["_access_token"] = VUnk("token-maybe-fetched")
+
+
+def token_after_success(ex, st, ctx):
+    """After a successful authorised request the token is cached: the old one, or a fresh non-empty string."""
+    ref = ctx.args["self"].ref
+    old = ctx.entry.obj(ref).data["_access_token"]
+    w = st.wobj(ref)
+    if isinstance(old, VStr):
+        w.data["_access_token"] = old
+    else:
+        t = z3.String(fresh_name("token"))
+        st.assume(z3.Length(t) > 0)
+        w.data["_access_token"] = VStr(t)
+    return w.data["_access_token"]
+
+
+def get_json_result(ex, st, ctx):
+    token_after_success(ex, st, ctx)
+    j = JSON_OF(ctx.args["url"].t)
+    st.assume(J_ISDICT(j))        # GRAPH-SHAPE: a healthy answer is a JSON object
+    return VExt("Json", j)
+
+
+FAMILY = ("SharePointRequestError", "SharePointAuthError")
+
+
+def part_b(reg):
+    out = []
+
+    def send_ensures_2xx(c):
+        r = c.result
+        if not (isinstance(r, VTuple) and len(r.items) == 2 and isinstance(r.items[0], VInt)):
+            return z3.BoolVal(False)
+        s = ops.int_term(r.items[0])
+        ok = z3.And(s >= 200, s < 300)
+        kind = c.st.ghost.get("transport")
+        if kind is not None:     # verification of the body: it is the status reported by the response obtained
+            if kind[0] != "resp":
+                return z3.BoolVal(False)
+            none, eff = eff_status(kind[1].t)
+            ok = z3.And(ok, z3.Not(none), s == eff)
+        return ok
+
+    out.append(FnContract(
+        target=f"{CLIENT}::SharePointRestClient._send",
+        params=[("self", p_client()), ("request", p_req()), ("request_kind", p_str())],
+        ensures=[("every-response-obtained-is-closed", closed), ("returns-only-2xx-with-the-response-status", send_ensures_2xx),
+                 ("caches-untouched", caches_unchanged)],
+        raises=[Raises("SharePointRequestError", when=lambda c: z3.And(send_raise_when(c), caches_unchanged(c)),
+                       label="HTTPError/URLError/non-2xx -> request error with status and url, responses closed"),
+                Raises("Exception", sub=True, when=lambda c: z3.And(z3.BoolVal(bool(c.st.ghost.get("misbehaved")) and not at_call_site(c)), closed(c)),
+                       label="outside T-ONLY/R-OK: other transport / response exceptions escape unchanged, responses closed")],
+        result_maker=send_result,
+        note="transport wrapper: closes what it opened on every path; only the request error escapes under T-ONLY, R-OK",
+    ))
+
+    def family_raises(extra=None):
+        def w(c):
+            if at_call_site(c):
+                # the caller keeps what it knew about the caches: a cached token stays; an absent one is absent or fresh
+                ref = c.args["self"].ref
+                old = c.entry.obj(ref).data["_access_token"]
+                if isinstance(old, VStr) or extra is token_unchanged:
+                    c.st.wobj(ref).data["_access_token"] = old
+                return z3.BoolVal(True)
+            cs = [closed(c), same_value(self_field(c, "_site_id"), self_field(c, "_site_id", c.entry))]
+            if extra is not None:
+                cs.append(extra(c))
+            return z3.And(cs)
+        return [Raises(k, when=w) for k in FAMILY]
+
+    def token_unchanged(c):
+        return same_value(self_field(c, "_access_token"), self_field(c, "_access_token", c.entry))
+
+    def token_cached(c):
+        t = self_field(c, "_access_token")
+        if not isinstance(t, VStr) or not isinstance(c.result, VStr):
+            return z3.BoolVal(False)
+        return z3.And(t.t == c.result.t, z3.Length(t.t) > 0)
+
+    out.append(FnContract(
+        target=f"{CLIENT}::SharePointRestClient.fetch_access_token",
+        params=[("self", p_client())],
+        ensures=[("token-cached-is-the-non-empty-token-returned", token_cached), ("responses-closed", closed),
+                 ("site-id-untouched", lambda c: same_value(self_field(c, "_site_id"), self_field(c, "_site_id", c.entry)))],
+        raises=family_raises(token_unchanged),
+        modifies=("self",), frame=token_frame,
+        result_maker=lambda ex, st, ctx: _fresh_token(ex, st, ctx),
+        note="token cached only after a successful, well-formed token response; any failure is of the client family",
+    ))
+
+    def json_token_rule(c):
+        """_access_token afterwards: unchanged if there was one, else a freshly fetched non-empty token."""
+        old, new = self_field(c, "_access_token", c.entry), self_field(c, "_access_token")
+        if isinstance(old, VStr):
+            return same_value(old, new)
+        return z3.And(z3.BoolVal(isinstance(new, VStr)), z3.Length(new.t) > 0 if isinstance(new, VStr) else z3.BoolVal(False))
+
+    def json_raise_token_rule(c):
+        old, new = self_field(c, "_access_token", c.entry), self_field(c, "_access_token")
+        if isinstance(old, VStr):
+            return same_value(old, new)
+        return z3.BoolVal(isinstance(new, (VStr, VNoneT)))
+
+    out.append(FnContract(
+        target=f"{CLIENT}::SharePointRestClient._get_json",
+        params=[("self", p_client()), ("url", p_str())],
+        ensures=[("responses-closed", closed), ("token-present-afterwards", json_token_rule),
+                 ("site-id-untouched", lambda c: same_value(self_field(c, "_site_id"), self_field(c, "_site_id", c.entry))),
+                 ("result-is-the-parsed-body", lambda c: z3.BoolVal(isinstance(c.result, VExt) and c.result.sort == "Json"))],
+        raises=family_raises(json_raise_token_rule),
+        modifies=("self",), frame=token_frame,
+        result_maker=get_json_result,
+        note="GET + JSON: malformed JSON -> request error; callers see the healthy server's answer JSON_OF(url) (T-DET)",
+    ))
+
+    def site_cached(c):
+        sid = self_field(c, "_site_id")
+        if not isinstance(sid, VStr) or not isinstance(c.result, VStr):
+            return z3.BoolVal(False)
+        old = self_field(c, "_site_id", c.entry)
+        return z3.And(sid.t == c.result.t, same_value(old, sid) if isinstance(old, VStr) else z3.BoolVal(True))
+
+    def site_frame(ex, st, amap):
+        token_frame(ex, st, amap)
+
+    def site_result(ex, st, ctx):
+        token_after_success_if_needed(ex, st, ctx)
+        ref = ctx.args["self"].ref
+        old = ctx.entry.obj(ref).data["_site_id"]
+        if isinstance(old, VStr):
+            return old
+        sid = VStr(z3.String(fresh_name("site_id")))
+        st.wobj(ref).data["_site_id"] = sid
+        return sid
+
+    out.append(FnContract(
+        target=f"{CLIENT}::SharePointRestClient.get_site_id",
+        params=[("self", p_client())],
+        ensures=[("site-id-cached-is-the-one-returned", site_cached), ("responses-closed", closed)],
+        raises=family_raises(),
+        modifies=("self",), frame=site_frame,
+        result_maker=site_result,
+        note="site id cached only after a successful response carrying a string id; cached value reused without a request",
+    ))
+    return out
+
+
+def _fresh_token(ex, st, ctx):
+    ref = ctx.args["self"].ref
+    t = z3.String(fresh_name("token"))
+    st.assume(z3.Length(t) > 0)
+    st.wobj(ref).data["_access_token"] = VStr(t)
+    return VStr(t)
+
+
+def token_after_success_if_needed(ex, st, ctx):
+    """get_site_id: with a cached site id no request is made and the token stays as it was."""
+    ref = ctx.args["self"].ref
+    e = ctx.entry.obj(ref).data
+    if isinstance(e["_site_id"], VStr):
+        st.wobj(ref).data["_access_token"] = e["_access_token"]
+    else:
+        token_after_success(ex, st, ctx)
+
+
 def contracts(reg):
     install_string_models(reg)
-    return part_a(reg)
+    install_transport_models(reg)
+    return part_a(reg) + part_b(reg)
 
 
 TRUSTED = []
 ASSUMED_MODELS = []
 ASSUMPTIONS = []
 
-EXECUTOR_KW = {f"{CLIENT}::_parse_iso_datetime": {"feas_timeout_ms": 300}}
+EXECUTOR_KW = {f"{CLIENT}::_parse_iso_datetime": {"feas_timeout_ms": 300},
+               f"{CLIENT}::SharePointRestClient.get_site_id": {"unshaped_keys": ("id",)}}
